@@ -24,7 +24,7 @@ func vCensus() map[string]int {
 		lines := strings.Split(g, "\n")
 		fn := ""
 		for _, l := range lines[1:] {
-			if strings.Contains(l, "smartcontractkit/wsrpc") && !strings.HasPrefix(l, "\t") && !strings.Contains(l, "wsrpc.v") && !strings.Contains(l, "wsrpc.TestVerif") && !strings.Contains(l, "wsrpc.(*v") {
+			if strings.Contains(l, "smartcontractkit/wsrpc") && !strings.HasPrefix(l, "\t") && !strings.HasPrefix(l, "created by") && !strings.Contains(l, "wsrpc.v") && !strings.Contains(l, "wsrpc.TestVerif") && !strings.Contains(l, "wsrpc.(*v") {
 				fn = l
 				if i := strings.Index(fn, "smartcontractkit/wsrpc"); i >= 0 {
 					fn = fn[i+len("smartcontractkit/wsrpc"):]
